@@ -724,6 +724,41 @@ func aliasFamily(r *vlib.R) []uint64 {
 	return []uint64{a, b, a << 32, b << 32, a<<32 | b, b<<32 | a, a<<32 | a, a ^ b, (a + b) & 0xffffffff, 1, 1 << 32, 1<<32 | 1}
 }
 
+// genRing: one key in EVERY segment (first and last included), then the
+// whole-table operations: Clear, ClearSegment at the boundaries, iteration,
+// length — anything that walks the segments must cover the whole ring.
+func genRing(r *vlib.R, emit func(string)) {
+	emit(fmt.Sprintf("segmap new %d 0", vlib.Pick(r, []int{4, 4, 5, 6, 8})))
+	cnt := uint(sm.SegmentCount())
+	used := map[uint64]bool{}
+	fill := func() {
+		for sgi := uint(0); sgi < cnt; sgi++ {
+			if cnt > 32 && sgi > 2 && sgi < cnt-3 && !r.Chance(1, 8) {
+				continue
+			}
+			i := sgi
+			ks := collideSearch(r, used, 1, func(k uint64) bool { return cache.VerifSegIndex(sm, k) == i })
+			for _, k := range ks {
+				emit(fmt.Sprintf("segmap set %d %d", k, val(r)))
+			}
+		}
+	}
+	fill()
+	emit("segmap reach")
+	emit("segmap keys")
+	emit("segmap clear")
+	emit("segmap len")
+	emit("segmap reach")
+	fill()
+	for _, i := range []uint{cnt - 1, 0, cnt, cnt - 2, 1} {
+		emit(fmt.Sprintf("segmap clearseg %d", i))
+	}
+	emit("segmap dump")
+	emit(fmt.Sprintf("segmap sweep %d set %d 7", r.Intn(3), r.U64()|1))
+	emit("segmap clear")
+	emit("segmap dump")
+}
+
 // genAns: the answer caches (PositiveCache / NegativeCache): live and already
 // expired entries stored over each other, looked up, removed.
 func genAns(r *vlib.R, emit func(string)) {
@@ -1053,6 +1088,7 @@ func gen(r *vlib.R, n int, tier string, emit0 func(string)) {
 	genSparse(r, emit)
 	genAns(r, emit)
 	genAns(r, emit)
+	genRing(r, emit)
 	genLimChurn(r, tier, emit)
 	genUmapLong(r, emit)
 	genSegLong(r, emit)
